@@ -68,6 +68,7 @@ struct Mon {
 	const bool plans, history, root_outcomes;
 	int expect_result = -1;          // result the next view must report for the previous action
 	bool logger_ops_effective = true;
+	int last_method = -1, last_cls = -1;
 	const void* ev_addr = 0; bool ev_addr_set = false;
 
 	Mon(Node& n_, OpExec& x_, int idx, std::vector<Violation>& o)
@@ -259,6 +260,7 @@ struct Mon {
 					structural(cx.prop, cx.clause, std::string("expected ") + METHOD_NAMES[method] + "(" + sid(cls) + "), got " + got); return false;
 				}
 				viol("C15", "each-once", std::string(METHOD_NAMES[method]) + "(" + sid(cls) + ") reached only " + S(j) + " of the " + S(k + 1) + " classes (injections + state)");
+				if (method == M_ENTRY_GUARD || method == M_EXIT_GUARD) viol("C03", "guards-consulted", std::string(METHOD_NAMES[method]) + " of state " + sid(cls) + " was consulted only in part: " + S(j) + " of its " + S(k + 1) + " guard callbacks (injections + state) ran");
 				return true;
 			}
 			int want = ord == ORD_PRE ? (j < k ? j + 1 : 0) : ord == ORD_POST ? (j == 0 ? 0 : k - j + 1) : -1;
@@ -269,6 +271,7 @@ struct Mon {
 			invocation(cx);
 		}
 		if (k) g_stats.hit("injected_deliveries");
+		last_method = method; last_cls = cls;
 		return true;
 	}
 
@@ -390,6 +393,11 @@ struct Mon {
 				else if (fired[f] >= prefix) viol("C08", "no-jumping-ahead", "task " + S(t.origin) + "->" + S(t.dest) + " fired although an earlier task with a different origin is still ahead of it");
 				explog(LOG_TRANSITION, t.origin, t.dest, hi);
 				if (t.origin == t.dest) g_stats.hit("cyclic_tasks_fired");
+				if (t.has_payload && g_info->payload_vsize >= 8) {
+					// payload bytes are unique per appended task in an execution (sequence number + 48 random bits): the same task must never fire twice
+					uint64_t key = 0; memcpy(&key, t.payload, g_info->payload_vsize < 8 ? g_info->payload_vsize : 8);
+					if (!T.fired_keys.insert(key).second) viol("C08", "fires-once", "task " + S(t.origin) + "->" + S(t.dest) + " fired although it had already fired and been removed");
+				}
 			}
 			if (a >= 0 && !bit_get(T.mayS, static_cast<unsigned>(a))) viol("C08", "fires-only-on-success", "a task of origin " + S(a) + " fired without an outstanding success report for that state");
 			const SutTask& last = P0[fired.back()];
@@ -638,11 +646,7 @@ struct Mon {
 				const int want = i < C ? 1 : 0;
 				if (x.results[i] != want) { viol("C10", "capacity-conserved", "with an empty plan, append #" + S(static_cast<int>(i + 1)) + " of capacity " + S(static_cast<int>(C)) + " returned " + S(x.results[i])); break; }
 			}
-			for (size_t i = 0; i < x.results.size() && i < C; ++i) {
-				SutTask t; memset(&t, 0, sizeof(t)); t.origin = static_cast<uint8_t>(x.a); t.dest = static_cast<uint8_t>((static_cast<unsigned>(x.b) + i) % N);
-				if (g_info->payload_kind != P_VOID && (i & 1)) { t.has_payload = 1; t.payload[0] = static_cast<uint8_t>(i); }
-				T.mirror.push_back(t);
-			}
+			for (size_t i = 0; i < x.filled.size() && i < C; ++i) T.mirror.push_back(x.filled[i]);
 			T.task_added = true; expect_no_hooks = true; mark_nontrivial("plan_filled_to_capacity");
 			break; }
 		case OP_SUCCEED: bit_set(T.mayS, static_cast<unsigned>(x.a), true); explog(LOG_TASK_STATUS, x.a, 0, 0); expect_no_hooks = true; g_stats.hit("external_reports"); break;
@@ -675,9 +679,13 @@ struct Mon {
 			else if (k == OP_QUERY) { prop = "C05"; clause = "query-root-and-active"; }
 			else if (k == OP_CONSTRUCT || k == OP_ENTER || k == OP_EXIT || k == OPX_DESTROY || k == OPX_REPLICA_CONSTRUCT) { prop = "C01"; clause = "lifecycle-pairing"; }
 			viol(prop, clause, "unexpected callback " + ev_str(e) + (expect_no_hooks ? " during an operation that must not run callbacks" : " after everything this call should have delivered"));
+			if (e.method == last_method && e.cls == last_cls && (n_inj(e.cls) > 0 || own_inj(e.cls)))
+				viol("C15", "each-once", ev_str(e) + " ran once more than the delivery of " + METHOD_NAMES[e.method] + " to state " + sid(e.cls) + " (injections + state, each exactly once) allows");
 			if (guard && (k == OP_LOAD || k == OP_REPLAY_TRANSITION || k == OPX_REPLAY_MSG)) viol("C03", "no-guards-on-replay-load", "guard " + ev_str(e) + " consulted during load/replay");
 			stop = true;
 		}
+		if (stop && (k == OP_REPLAY_TRANSITION || (k == OPX_REPLAY_MSG && x.c != 2)) && x.a != SUT_INVALID && x.after.valid && x.after.active_id != x.a)
+			viol("C14", "transition-activates-requested-state", "replaying destination " + S(x.a) + " left the machine in state " + sid(x.after.active_id));
 		if (stop) { n.T = T; n.T.active = x.after.valid && x.after.active_id != SUT_INVALID; n.T.open = n.T.active ? x.after.active_id : -1; n.T.slot.clear(); if (x.after.valid) n.T.mirror = x.after.plan.tasks; n.T.prev_known = false; broken = true; return; }
 		// logs
 		compare_logs();
@@ -690,6 +698,8 @@ struct Mon {
 			const bool act = x.after.active_id != SUT_INVALID;
 			if (act != x.saved_active || (act && x.after.active_id != x.saved_state)) viol("C12", "round-trip", "after load() the machine is " + (act ? "in state " + S(x.after.active_id) : std::string("inactive")) + " but the snapshot was taken " + (x.saved_active ? "in state " + S(x.saved_state) : std::string("inactive")));
 		}
+		if ((k == OP_REPLAY_TRANSITION || (k == OPX_REPLAY_MSG && x.c != 2)) && x.a != SUT_INVALID && x.after.valid && x.after.active_id != x.a)
+			viol("C14", "transition-activates-requested-state", "replaying destination " + S(x.a) + " left the machine in state " + sid(x.after.active_id));
 		if (k == OPX_REPLAY_MSG && x.c != 2 && x.after.valid && x.after.active_id != x.b)
 			viol("C11", "replica-in-sync", "after replaying destination " + S(x.a) + " the replica is in state " + S(x.after.active_id) + " while the authority was in state " + S(x.b) + " after that step");
 	}
